@@ -981,7 +981,7 @@ theorem gcKey_step (s : RState) (h : RInv s) (f : Fam) (r : Bool) (ih : Bytes) (
     · exact this.2.1
     · exact this.1
   have hseed : keyIsSeeder kX = r := by rw [← hkX]; exact keyIsSeeder_swarmKey f r ih
-  unfold gcKey gcKeyApply gcKeyRead
+  unfold gcKey gcKeyApply gcIdx gcHashApply gcKeyRead
   simp only [hseed]
   generalize hstale : (hget s kX).filter (fun e => decide (e.2 ≤ cutoff)) = stale
   have rs1 : HRepl s (stale.foldl (fun acc e => (hdel acc kX e.1).1) s) kX ((hget s kX).filter (fun e => decide (e.2 > cutoff))) := by
@@ -1033,6 +1033,8 @@ theorem gcKey_step (s : RState) (h : RInv s) (f : Fam) (r : Bool) (ih : Bytes) (
   · -- the hash is gone: the index entry is removed, the infohash counter follows for a seeder key
     have hisE : m'.isEmpty = true := (isEmpty_iff_nil _).mpr hemp
     simp only [hisE, if_true]
+    have hreg : AMap.has (idx s2 f) kX = true := by rw [h2idx]; exact hk
+    simp only [hreg, Bool.and_true]
     generalize hs3 : setIdx s2 f (AMap.erase (idx s2 f) kX) = s3
     have h3h : s3.hashes = s2.hashes := by rw [← hs3]; exact setIdx_hashes _ _ _
     have h3c : s3.c = s2.c := by rw [← hs3]; exact setIdx_c _ _ _
@@ -1121,6 +1123,132 @@ theorem gcKey_step (s : RState) (h : RInv s) (f : Fam) (r : Bool) (ih : Bytes) (
       (by rw [hkX]; exact hcnt s2 (Or.inl rfl))
       (fun f' => by rw [h2c, h2idx, h.cih]; cases r <;> simp [roleKind])
     exact ⟨key.1, key.2, fun f' k' hk' => by rwa [h2idx] at hk', fun f' k' _ hk' => by rwa [h2idx]⟩
+
+
+/-- the first half of the collector's work on one key (removal of the expired fields and `DECRBY`), on
+its own: it needs no registration of the key, and leaves the index alone -/
+theorem gcHash_step (s : RState) (h : RInv s) (f : Fam) (r : Bool) (ih : Bytes) (cutoff : Int) :
+    RInv (gcHash s f (swarmKey f r ih) cutoff) ∧
+    (∀ ih' f', view (gcHash s f (swarmKey f r ih) cutoff) ih' f' =
+      if ih = ih' ∧ f = f' then setRole r ((hget s (swarmKey f r ih)).filter (fun e => decide (e.2 > cutoff))) (view s ih f) else view s ih' f') ∧
+    (∀ f', idx (gcHash s f (swarmKey f r ih) cutoff) f' = idx s f') := by
+  generalize hkX : swarmKey f r ih = kX at *
+  have hmwf : WF (hget s kX) := by
+    have := h.ok ih f
+    rw [← hkX]
+    cases r
+    · exact this.2.1
+    · exact this.1
+  have hseed : keyIsSeeder kX = r := by rw [← hkX]; exact keyIsSeeder_swarmKey f r ih
+  unfold gcHash gcHashApply gcKeyRead
+  simp only [hseed]
+  generalize hstale : (hget s kX).filter (fun e => decide (e.2 ≤ cutoff)) = stale
+  have rs1 : HRepl s (stale.foldl (fun acc e => (hdel acc kX e.1).1) s) kX ((hget s kX).filter (fun e => decide (e.2 > cutoff))) := by
+    have := fold_hdel stale s h.wfH kX
+    rw [← hstale, fold_erase_filter _ hmwf, filter_fresh] at this
+    rw [← hstale]; exact this
+  have hlen : (stale.length : Int) = (hget s kX).length - ((hget s kX).filter (fun e => decide (e.2 > cutoff))).length := by
+    have := length_filter_compl (hget s kX) (fun e => decide (e.2 ≤ cutoff))
+    rw [filter_fresh, hstale] at this
+    omega
+  generalize stale.foldl (fun acc e => (hdel acc kX e.1).1) s = s1 at rs1
+  generalize hm' : (hget s kX).filter (fun e => decide (e.2 > cutoff)) = m' at rs1 hlen
+  have hm'wf : WF m' := by rw [← hm']; exact MemStore.wf_filter _ hmwf _
+  have hm'sub : ∀ k, AMap.has m' k = true → AMap.has (hget s kX) k = true := by
+    intro k hk'; rw [← hm'] at hk'; exact has_filter_sub _ _ _ hk'
+  generalize hs2 : (if stale.length > 0 then addC s1 f (if r = true then CKind.s else CKind.l) (-(stale.length : Int)) else s1) = s2
+  have h2h : s2.hashes = s1.hashes := by rw [← hs2]; split <;> rfl
+  have h24 : s2.idx4 = s1.idx4 := by rw [← hs2]; split <;> rfl
+  have h26 : s2.idx6 = s1.idx6 := by rw [← hs2]; split <;> rfl
+  have h2c : ∀ f' k', getC s2.c f' k' = getC s.c f' k' + (if f = f' ∧ roleKind r = k' then -(stale.length : Int) else 0) := by
+    intro f' k'
+    rw [← hs2]
+    by_cases hpos : stale.length > 0
+    · simp only [hpos, if_true, getC_addC, rs1.c]; rfl
+    · have : stale.length = 0 := by omega
+      simp [this, rs1.c]
+  have h2idx : ∀ f', idx s2 f' = idx s f' := fun f' => by rw [idx_congr h24 h26, rs1.idx]
+  have h2get : ∀ k', hget s2 k' = if kX = k' then m' else hget s k' := fun k' => by rw [hget_congr h2h]; exact rs1.get k'
+  have hcnt : ∀ f' r', getC s2.c f' (roleKind r') = getC s.c f' (roleKind r') +
+      (if f' = f ∧ r' = r then (m'.length : Int) - (hget s kX).length else 0) := by
+    intro f' r'
+    rw [h2c]
+    by_cases hc : f' = f ∧ r' = r
+    · obtain ⟨rfl, rfl⟩ := hc; simp; omega
+    · have : ¬ (f = f' ∧ roleKind r = roleKind r') := by
+        intro ⟨a, b⟩; apply hc; refine ⟨a.symm, ?_⟩
+        cases r <;> cases r' <;> simp [roleKind] at b ⊢
+      simp [hc, this]
+  have key := single_step s s2 h ih f r m' (by rw [h2h]; exact rs1.wf)
+    (fun k' => by rw [hkX]; exact h2get k')
+    (fun w hw => by rw [h2h, hkX]; exact rs1.sum w hw)
+    hm'wf (by rw [hkX]; exact hm'sub)
+    (fun f' => by rw [h2idx]; exact h.wfI _)
+    (fun f' k' hk' => by rwa [h2idx] at hk')
+    (fun f' k' hk' => Or.inl (by rwa [h2idx]))
+    (by rw [hkX]; exact hcnt)
+    (fun f' => by rw [h2c, h2idx, h.cih]; cases r <;> simp [roleKind])
+  exact ⟨key.1, key.2, h2idx⟩
+
+theorem gcKey_eq (s : RState) (f : Fam) (k : Bytes) (cutoff : Int) :
+    gcKey s f k cutoff = gcIdx (gcHash s f k cutoff) f k := rfl
+
+theorem setIdx_self (s : RState) (f : Fam) : setIdx s f (idx s f) = s := by cases f <;> rfl
+
+/-- the second half (unregistering an empty swarm hash), on its own: the view does not change -/
+theorem gcIdx_step (s : RState) (h : RInv s) (f : Fam) (r : Bool) (ih : Bytes) :
+    RInv (gcIdx s f (swarmKey f r ih)) ∧ (∀ ih' f', view (gcIdx s f (swarmKey f r ih)) ih' f' = view s ih' f') := by
+  by_cases hemp : hget s (swarmKey f r ih) = []
+  · by_cases hreg : AMap.has (idx s f) (swarmKey f r ih) = true
+    · -- registered and empty: this is the whole `gcKey` with nothing to expire
+      have e : gcIdx s f (swarmKey f r ih) = gcKey s f (swarmKey f r ih) 0 := by
+        rw [gcKey_eq]
+        have : gcHash s f (swarmKey f r ih) 0 = s := by
+          simp [gcHash, gcHashApply, gcKeyRead, hemp]
+        rw [this]
+      rw [e]
+      obtain ⟨a, b, _, _⟩ := gcKey_step s h f r ih 0 hreg
+      refine ⟨a, fun ih' f' => ?_⟩
+      rw [b]
+      split
+      · rename_i hc
+        obtain ⟨rfl, rfl⟩ := hc
+        rw [hemp]
+        have hro : roleOf r (view s ih f) = [] := by rw [roleOf_view]; exact hemp
+        cases r
+        · simp only [setRole, roleOf] at hro ⊢
+          simp only [Bool.false_eq_true, if_false, List.filter_nil]
+          cases hv : view s ih f with
+          | mk S L => rw [hv] at hro; simp at hro; simp [hro]
+        · simp only [setRole, roleOf] at hro ⊢
+          simp only [if_true, List.filter_nil]
+          cases hv : view s ih f with
+          | mk S L => rw [hv] at hro; simp at hro; simp [hro]
+      · rfl
+    · -- empty and not registered: nothing changes
+      have hnone : AMap.get (idx s f) (swarmKey f r ih) = none := by
+        cases hg : AMap.get (idx s f) (swarmKey f r ih) with
+        | none => rfl
+        | some v => exact absurd (by simp [AMap.has, hg]) hreg
+      have : gcIdx s f (swarmKey f r ih) = s := by
+        unfold gcIdx
+        have hf : AMap.has (idx s f) (swarmKey f r ih) = false := by
+          cases hq : AMap.has (idx s f) (swarmKey f r ih)
+          · rfl
+          · exact absurd hq hreg
+        simp only [hemp, List.isEmpty_nil, if_true, hf, Bool.and_false, Bool.false_eq_true, if_false,
+          AMap.erase_of_not_has _ _ hnone, setIdx_self]
+      rw [this]
+      exact ⟨h, fun _ _ => rfl⟩
+  · have : gcIdx s f (swarmKey f r ih) = s := by
+      unfold gcIdx
+      have : (hget s (swarmKey f r ih)).isEmpty = false := by
+        cases hq : (hget s (swarmKey f r ih)).isEmpty
+        · rfl
+        · exact absurd ((isEmpty_iff_nil _).mp hq) hemp
+      simp [this]
+    rw [this]
+    exact ⟨h, fun _ _ => rfl⟩
 
 
 def fresh (cutoff : Int) (m : PMap) : PMap := m.filter (fun e => decide (e.2 > cutoff))
